@@ -5,7 +5,7 @@ import os
 from vlib import core, runner
 from .base import Check
 
-OPS = ("C ", "R ", "A ", "X ", "T ", "P ", "D ", "U ", "N ")
+OPS = ("C ", "R ", "A ", "X ", "T ", "P ", "D ", "U ", "N ", "F ")
 
 
 def signature(lines, upto, clause):
@@ -34,6 +34,9 @@ NEGATIVE_CONTROLS = [
                                      "notify && !IsPaused() up front and sets the two attributes in the other order; the stash type via a local — the raw "
                                      "attribute then differs from the model's at some looks, which the driver accepts (still what it was, or already what the "
                                      "readers see)"),
+    ("nc8_suppressed_handler_respelled", "round 4, against the F operation: NotificationReasonSuppressed asks IsAcknowledged() first (lazy expiry evaluated also inside a "
+                                         "downtime), FireSuppressedNotifications reads the stash before its guards, tests them in one combined condition, asks the "
+                                         "suppression rule once (Problem and Recovery share it) and clears the stash bits before requesting the notification"),
 ]
 
 
@@ -44,47 +47,63 @@ class C06(Check):
                          "refusal_justified", "cleared_event_once", "ack_comments_removed", "ack_comment_as_requested",
                          "removal_removes_comments", "problem_withheld_while_acked", "withheld_problem_is_stashed",
                          "paused_result_is_silent", "reminder_withheld_while_acked", "reminder_only_from_remind",
+                         "stash_kept_while_acked", "stash_released_after_clearing", "no_problem_notification_while_acked",
+                         "trace_no_problem_notification_while_acked", "stash_only_emptied_by_handler",
+                         "withheld_problem_delivered_after_clearing",
                          "stored_expiry_is_requested", "comment_expiry_timer", "downtime_bit",
                          "model_trace_meets_spec", "model_trace_meets_spec_from_init"]
     technique = ("Lean 4 proof (closed form of every operation + relation between the specification's bookkeeping and the model state, "
                  "induction over the history; ghost-counter balance for the events) over a hand-written model; correspondence by exhaustive + "
                  "random differential execution of the real HTTP dispatcher / API actions, external commands, cluster handlers, ProcessCheckResult, "
-                 "the comment-expiry timer, NotificationComponent's reminder handler and pausing (SetAuthority), with the raw attribute read before and "
+                 "the comment-expiry timer, NotificationComponent's reminder handler, Checkable::FireSuppressedNotifications (the handler of the "
+                 "suppressed-notification timer) and pausing (SetAuthority), with the raw attribute read before and "
                  "GetHandled / GetSeverity / GetAcknowledgement in rotating order after every operation")
     level_text = ("Machine-checked theorems (Lean 4 kernel): for every configuration and every finite sequence of acknowledge (HTTP request / API action, "
                   "ACKNOWLEDGE_*_PROBLEM[_EXPIRE], event::SetAcknowledgement; normal/sticky, any expiry, notify, persistent), remove-acknowledgement "
-                  "(three entry points), check results, time advances, runs of the comment-expiry timer, due reminders, downtimes and pausing coming "
-                  "and going, with arbitrary times, the model's trace satisfies the executable "
-                  "specification of the property, 30 clauses without mask: clearing rules, expiry — seen by whichever reader looks first (handled, severity "
+                  "(three entry points), check results, time advances, runs of the comment-expiry timer, due reminders, runs of the suppressed-notification handler, "
+                  "downtimes and pausing coming and going, with arbitrary times, the model's trace satisfies the executable "
+                  "specification of the property, 32 clauses without mask: clearing rules, expiry — seen by whichever reader looks first (handled, severity "
                   "class, acknowledgement), the raw attribute lagging only by that lazy expiry —, stored expiry as requested, handled, exactly one "
                   "Acknowledgement notification (none from a paused object, set event in any case), refusals and that nothing else is refused, one cleared "
                   "event per clearing, the acknowledgement comment as requested (entry time, persistence independent of sticky, expiry), its removal by "
                   "clearing results / remove-acknowledgement / the comment timer (expired non-persistent ones only) and by nothing else, a due Problem "
                   "notification either requested or stashed under its own type — withheld exactly while acknowledged / in a downtime / behind an older "
-                  "stash —, reminders withheld exactly while acknowledged (downtime, soft state, pending first notification aside); without further "
+                  "stash —, reminders withheld exactly while acknowledged (downtime, soft state, pending first notification aside), the handler that re-sends "
+                  "withheld notifications (FireSuppressedNotifications) keeping the stash and requesting nothing while acknowledged / in a downtime / "
+                  "paused and, once the acknowledgement is removed, cleared or run out (hard state), emptying it and requesting the owed notification "
+                  "exactly once — of the current state's type, none if the state is back to the one before the suppression "
+                  "(state_before_suppression is modelled); at no look of any history is the object acknowledged while a Problem notification or "
+                  "reminder was just requested, and nothing but that handler takes a notification out of the stash; without further "
                   "hypothesis (F-C06a, found by this check, is fixed in /repo by 6eaa5f1 and kept as a "
                   "regression case). The model is tied to the code by running the "
                   "real entry points on real Host/Service objects over all sequences of 4 (5 thorough) operations from a 16-symbol alphabet x "
-                  "host/service x max_check_attempts 1..2 plus random histories with times, and diffing every observation; the same specification "
+                  "host/service x max_check_attempts 1..2, all sequences of 4 (5) operations from a 9-symbol alphabet around the "
+                  "suppressed-notification handler after a first CRITICAL/DOWN result, plus random histories with times, and diffing every observation; the same specification "
                   "predicate is evaluated on the implementation's own trace")
     level_note = ("Trusted: Lean kernel (+ propext, Classical.choice, Quot.sound), sampled correspondence of the hand-written model, harness/driver. "
                   "Modelled since round 3: pausing (bit set by SetAuthority), the stash bits Problem/Recovery of suppressed_notifications, the reminder "
                   "guards of NotificationComponent::NotificationTimerHandler, GetSeverity's acknowledged class, the raw attribute before the look. "
-                  "Not modelled: reachability, flapping, the zone test of the cluster handlers (C13), the suppressed-notification timer that empties the "
-                  "stash (C02; parked), when a reminder is due (C03; the harness makes it due), whether the comment-expiry timer runs (oracle on the P "
+                  "Modelled since round 4: Checkable::FireSuppressedNotifications for state notifications with state_before_suppression (operation F; "
+                  "called directly, its 5 s timer stays parked; IsLikelyToBeCheckedSoon and the recent-parent-recovery delay are C02's subject "
+                  "and switched off for the call: active checks disabled during it, the service's host has last_state_change 0), the literal integer "
+                  "arguments of the external commands (sticky iff 2, notify/persistent iff > 0; vias f/y). "
+                  "Not modelled: reachability, flapping, the zone test of the cluster handlers (C13), when the suppressed-notification timer runs and "
+                  "its two delays (C02), when a reminder is due (C03; the harness makes it due), whether the comment-expiry timer runs (oracle on the P "
                   "line; the specification does not look at it), a downtime's own life cycle (C05; it enters as the bit 'in effect'); an HTTP request is "
-                  "modelled as the API action it reaches; cluster acktype other than 1|2 and origin->FromZone are not driven. The cluster handler "
+                  "modelled as the API action it reaches; cluster acktype other than 1|2 (a malformed message of an authenticated peer: the property quantifies over normal/sticky "
+                  "acknowledgements) and origin->FromZone are not driven. The cluster handler "
                   "accepting an OK/Up object is kept as the anchors' split (theorem cluster_accepts_ok; refusing a relayed decision would let HA members "
                   "diverge). When a state notification is due is C01/C02's rule (sendNotification), evaluated by the specification on the observed "
                   "state/type/attempt. "
                   "Compared are only accepted/refused (any 2xx / any exception), counts of signals (not their order), sorted comment sets, bits — see "
-                  "NEGATIVE_CONTROLS in checks/c06.py for the seven harmless rewrites the check stays silent on. One private member is reached by name "
+                  "NEGATIVE_CONTROLS in checks/c06.py for the eight harmless rewrites the check stays silent on. One private member is reached by name "
                   "(NotificationComponent::NotificationTimerHandler, as harness/c03.cpp does); renaming it breaks the harness build, not the property.")
     trusted_base = [
         "modelled, not verified: Checkable::GetAcknowledgement/AcknowledgeProblem/ClearAcknowledgement/GetHandled, Host/Service::GetSeverity's "
         "acknowledged class, the acknowledgement, notification-suppression and stash lines of ProcessCheckResult, RemoveAckComments, the "
         "acknowledgement entry points of ApiActions, ExternalCommandProcessor and ClusterEvents, the reminder guards of "
-        "NotificationComponent::NotificationTimerHandler; the C01 model for state type and hard changes",
+        "NotificationComponent::NotificationTimerHandler, the state-notification part of Checkable::FireSuppressedNotifications with "
+        "NotificationReasonSuppressed; the C01 model for state type and hard changes",
         "each case has one Notification object without users, period, times or filters (interval 1 s), constructed directly; no "
         "NotificationComponent is started (requests are counted at OnNotificationsRequested, reminder attempts at OnNotificationSentToAllUsers); "
         "the N operation resets next_notification and calls NotificationTimerHandler on a never-activated component",
@@ -96,6 +115,8 @@ class C06(Check):
         "times used by the harness are positive integers (exact in binary64)",
         "no dependency, flapping disabled, no ApiListener (cluster relay is a no-op; pausing is SetAuthority on the checkable only)",
         "downtimes are fixed downtimes constructed directly (as test/icinga-checkresult.cpp does) that are in effect while registered",
+        "FireSuppressedNotifications is called directly at moments at which no check is imminent (enable_active_checks off during the call) and "
+        "no parent recovered recently (the host of a service case is never checked; its last_state_change is set to 0)",
         "only the comment-expiry timer becomes due when the harness pumps (Timer::VerifFireDue): the timers Checkable::Start creates are "
         "parked in the far future; whether the timer ran is taken from the implementation (oracle input on the P line)",
         "the API user of the HTTP requests holds the permission actions/* (authorisation is C18's subject)",
@@ -173,7 +194,10 @@ class C06(Check):
                     "sticky+non-persistent / cluster event, remove via HTTP request / external command, time advance with the first reader rotating, "
                     "timer pump, downtime toggle, pause toggle, due reminder) x host/service x max_check_attempts 1..2 from a never-checked object, "
                     "except those beginning with a pure look (advance, pump, reminder: no-ops on a fresh object, so the sequence is its own tail) "
-                    "(distinct by construction); plus seeded random histories (length up to 40/120, all entry points, expiry in the future / now / "
+                    f"(distinct by construction); after a first CRITICAL/DOWN result every sequence of {n} operations over a 9-symbol alphabet (results "
+                    "OK/CRITICAL/WARNING, sticky acknowledge with expiry via API action / without via cluster event, remove, downtime toggle, pause "
+                    "toggle, run of the suppressed-notification handler) that contains a handler run, x the same 4 configurations; "
+                    "plus seeded random histories (length up to 40/120, all entry points incl. external commands with literal integer arguments, handler runs, expiry in the future / now / "
                     "past / none, late and outdated results, volatile, max 1..4, pausing, reminders, random first reader) and the corpus. evaluations = operations executed on the real "
                     "code; a case counts as non-trivial when an acknowledgement was set and later cleared, distinct by hash of its operation "
                     "lines (counted by the Lean driver)")
